@@ -268,3 +268,89 @@ fn c19_version_persist_step() {
     kani::cover!(recorded == presented && p > 0, "unchanged version");
     core::mem::forget((r, r2, w, out));
 });
+
+// ---- compute_add (two sources, shortest governs) ------------------------------------------------
+eager_harness!(c06_add_step, 6,
+fn c06_add_step() {
+    let a = Mock::<usize, u64>::any(L);
+    let b = Mock::<usize, u64>::any(L);
+    let n = if a.n() < b.n() { a.n() } else { b.n() };
+    let mut expect = [0u64; SN];
+    let mut i = 0;
+    while i < SN {
+        kani::assume(a.data[i] < (1u64 << 40) && b.data[i] < (1u64 << 40));
+        if i < n { expect[i] = a.data[i] + b.data[i]; }
+        i += 1;
+    }
+    let (mut out, p, c) = any_output(&expect, n, 1);
+    let max_from: usize = kani::any();
+    kani::assume(max_from <= c);
+    let exit = Exit::new();
+    let r = out.compute_add(max_from, &a, &b, &exit);
+    assert!(r.is_ok());
+    check_result(&out, &expect, n);
+    kani::cover!(a.n() != b.n() && n == 2, "unequal source lengths");
+    kani::cover!(p > n, "shortest source shrank below the output");
+    core::mem::forget((r, out, exit));
+});
+
+// ---- compute_all_time_high ------------------------------------------------------------------------
+eager_harness!(c06_all_time_high_step, 6,
+fn c06_all_time_high_step() {
+    let src = Mock::<usize, u32>::any(L);
+    let n = src.n();
+    let mut expect = [0u64; SN];
+    let mut acc = 0u64;
+    let mut i = 0;
+    while i < SN {
+        if i < n { if src.data[i] as u64 > acc { acc = src.data[i] as u64; } expect[i] = acc; }
+        i += 1;
+    }
+    let (mut out, p, c) = any_output(&expect, n, 1);
+    let max_from: usize = kani::any();
+    kani::assume(max_from <= c);
+    let exit = Exit::new();
+    let r = out.compute_all_time_high(max_from, &src, &exit);
+    assert!(r.is_ok());
+    check_result(&out, &expect, n);
+    kani::cover!(max_from == 2 && n == 3, "resume from the stored maximum");
+    core::mem::forget((r, out, exit));
+});
+
+// ---- compute_rolling_sum (variable window starts, leaving cursor) -----------------------------------
+eager_harness!(c06_rolling_sum_step, 6,
+fn c06_rolling_sum_step() {
+    let vals = Mock::<usize, u32>::any(L);
+    let starts = Mock::<usize, usize>::any(L);
+    let n = if vals.n() < starts.n() { vals.n() } else { starts.n() };
+    // monotone window starts with start[i] <= i
+    let mut i = 0;
+    while i < SN {
+        kani::assume(starts.data[i] <= i);
+        if i > 0 { kani::assume(starts.data[i - 1] <= starts.data[i]); }
+        i += 1;
+    }
+    let mut expect = [0u64; SN];
+    let mut i = 0;
+    while i < SN {
+        if i < n {
+            let mut acc = 0u64;
+            let mut j = 0;
+            while j < SN {
+                if j >= starts.data[i] && j <= i { acc += vals.data[j] as u64; }
+                j += 1;
+            }
+            expect[i] = acc;
+        }
+        i += 1;
+    }
+    let (mut out, p, c) = any_output(&expect, n, 1);
+    let max_from: usize = kani::any();
+    kani::assume(max_from <= c);
+    let exit = Exit::new();
+    let r = out.compute_rolling_sum(max_from, &starts, &vals, &exit);
+    assert!(r.is_ok());
+    check_result(&out, &expect, n);
+    kani::cover!(max_from == 2 && n == 3 && starts.data[2] == 2 && starts.data[1] == 0, "resume with a window start that jumps");
+    core::mem::forget((r, out, exit));
+});
